@@ -970,3 +970,81 @@ pub fn cmd_facade_conf(args: &Args) -> J {
         ("samples", J::Arr(vec![])),
     ])
 }
+
+/// `adapter-conf`: what the adapter `DynParallelPrecompile::to_alloy` reports when an
+/// implementation answers a facade error in its own way. The expected verdict comes from the Lean
+/// model (`Facade.adapter` over `Facade.runOps`), NOT from the in-order oracle, which installs the
+/// same adapter. One transaction per case: a contract calls the error-replacer precompile (mode
+/// 0-3) through CALL or STATICCALL and stores whether the call succeeded.
+pub fn cmd_adapter_conf(args: &Args) -> J {
+    use revm_primitives::U256;
+    let seed = args.num("seed", 1);
+    let gmodel = args.str("gmodel", "/verif/lean/.lake/build/bin/gmodel");
+    let mut session = String::from("adapter\n");
+    let mut observed = Vec::new();
+    let mut descs = Vec::new();
+    let mut rng = Rng::new(seed ^ 0xada9);
+    for is_static in [false, true] {
+        for mode in 0u64..4 {
+            for (cfg_name, cfg) in [("parallel", RunCfg::parallel(2)), ("sequential", RunCfg { workers: 1, min_parallel_txs: 0, force_sequential: true, entry_fallback: false })] {
+                let mut b = blocks::precompile_builder(&mut rng, revm_primitives::hardfork::SpecId::SHANGHAI, 2);
+                b.call(&mut rng, blocks::eoa(0), blocks::contract(48), &[mode, is_static as u64], "adapter-probe");
+                b.transfer(&mut rng, blocks::eoa(1), blocks::eoa(0), 1);
+                let block = b.finish();
+                let run = world::run_grevm(&block, &cfg, None);
+                let kind = match &run.result.status {
+                    Err((_, e)) if e.contains("fatal") || e.contains("custom") => "fatal".to_owned(),
+                    Err((_, e)) => format!("error:{e}"),
+                    Ok(()) => {
+                        let flag = run
+                            .result
+                            .bundle
+                            .state
+                            .get(&blocks::contract(48))
+                            .and_then(|a| a.storage.get(&U256::ZERO))
+                            .map(|s| s.present_value);
+                        match flag {
+                            // the assembler stores success + 1
+                            Some(v) if v == U256::from(2u64) => "ok".to_owned(),
+                            Some(v) if v == U256::from(1u64) => "halt".to_owned(),
+                            other => format!("unexpected-flag:{other:?}"),
+                        }
+                    }
+                };
+                session.push_str(&format!("{} {mode}\n", is_static as u8));
+                observed.push(kind);
+                descs.push(format!("static={is_static} mode={mode} path={cfg_name}"));
+            }
+        }
+    }
+    session.push_str("end\n");
+    let mut divergences = Vec::new();
+    let mut ok = 0usize;
+    match lean::run_gmodel(&gmodel, &session) {
+        Err(e) => divergences.push(J::obj(vec![("kind", J::s("correspondence")), ("detail", J::s(e))])),
+        Ok(lines) => {
+            let model: Vec<&str> = lines.first().map(|l| l.split(';').collect()).unwrap_or_default();
+            for (i, o) in observed.iter().enumerate() {
+                let m = model.get(i).copied().unwrap_or("<missing>");
+                if m == o {
+                    ok += 1;
+                } else {
+                    divergences.push(J::obj(vec![
+                        ("kind", J::s("oracle")),
+                        ("detail", J::s(format!("adapter case {}: the call ended as `{o}`, the facade model (fault recorded by the facade overrides whatever the implementation returns) says `{m}`", descs[i]))),
+                    ]));
+                }
+            }
+        }
+    }
+    J::obj(vec![
+        ("check", J::s("adapter-conformance (error-replacer precompile through CALL/STATICCALL vs Lean Facade.adapter)")),
+        ("seed", J::n(seed as usize)),
+        ("cases", J::n(observed.len())),
+        ("conforming", J::n(ok)),
+        ("distinct_nontrivial", J::n(observed.len())),
+        ("observed", J::Arr(descs.iter().zip(observed.iter()).map(|(d, o)| J::s(format!("{d} => {o}"))).collect())),
+        ("divergences", J::Arr(divergences)),
+        ("samples", J::Arr(vec![])),
+    ])
+}
